@@ -133,9 +133,10 @@ func c29AggExprs(full bool) []*c29Expr {
 	for _, op := range []string{"sum", "avg", "min", "max", "count", "group", "stddev", "stdvar"} {
 		forms = append(forms, [2]string{op, ""})
 	}
-	forms = append(forms, num("quantile", "0.5", "0", "1", "0.25", "-0.5", "1.5", "NaN")...)
 	if full {
-		forms = append(forms, num("quantile", "0.75", "0.1")...)
+		forms = append(forms, num("quantile", "0.5", "0", "1", "0.25", "-0.5", "1.5", "NaN", "0.75", "0.1")...)
+	} else {
+		forms = append(forms, num("quantile", "0.5", "0", "1.5", "NaN", "0.25")...)
 	}
 	ks := []string{"1", "2", "0", "3"}
 	if full {
@@ -408,34 +409,46 @@ func c29Pairs(lsets, rsets [][]int, keep func(l, r []int) bool) [][2][]int {
 func c29Tiers(thorough bool) []*c29Tier {
 	var tiers []*c29Tier
 	add := func(t *c29Tier) { tiers = append(tiers, t) }
+	vecTier := func(name, desc, sel string, pool []c29Series, sets [][]int, vals []float64, exprs []*c29Expr) {
+		n, f := c29VecSlots(pool, sets, vals)
+		add(&c29Tier{Name: name, NSlots: n, Slot: f, Exprs: exprs, ASel: sel, Block: 64, Desc: desc})
+	}
+	pairTier := func(name, desc string, lp, rp []c29Series, lsel, rsel string, pairs [][2][]int, pattern int, exprs []*c29Expr, block int) {
+		_, f := c29PairSlots(lp, rp, pairs, len(c29Patterns))
+		np := len(c29Patterns)
+		add(&c29Tier{Name: name, NSlots: len(pairs), Slot: func(i int) []ag_Sample { return f(np*i + pattern) }, Exprs: exprs, LSel: lsel, RSel: rsel, Block: block, Desc: desc})
+	}
+	small := func(k int) func(l, r []int) bool { // at least one side has <= k series
+		return func(l, r []int) bool { return len(l) <= k || len(r) <= k }
+	}
 	mPool := c29Combos("m")
-	aggPool := append(append([]c29Series{}, mPool...), c29Series{"n", "", ""}, c29Series{"n", "1", ""}, c29Series{"n", "1", "1"})
+	nExtra := []c29Series{{"n", "", ""}, {"n", "1", ""}, {"n", "1", "1"}}
+	aggPool := append(append([]c29Series{}, mPool...), nExtra...)
 	aggExprs := c29AggExprs(thorough)
 	const aggSel = `{__name__=~"m|n"}`
+	nan, inf := math.NaN(), math.Inf(1)
 
-	// A1: every vector of <=2 samples over the 12 aggregation series, all 6 values.
-	n, f := c29VecSlots(aggPool, c29Sets(len(aggPool), 0, 2, -1), c29Vals)
-	add(&c29Tier{Name: "agg-le2", NSlots: n, Slot: f, Exprs: aggExprs, ASel: aggSel, Block: 64,
-		Desc: "every vector of 0..2 samples over 12 series (m x {a,b} in {absent,1,2}, n{}, n{a=1}, n{a=1,b=1}) x 6 values"})
-	// A2: every vector of 3 samples of one metric name.
+	// A: aggregations
+	vecTier("agg-le2", "every vector of 0..2 samples over 12 series (m x {a,b} in {absent,1,2}, n{}, n{a=1}, n{a=1,b=1}) x 6 values",
+		aggSel, aggPool, c29Sets(len(aggPool), 0, 2, -1), c29Vals, aggExprs)
 	if thorough {
-		v3 := []float64{1, 2, math.NaN(), math.Inf(1), math.Inf(-1)}
-		n, f = c29VecSlots(mPool, c29Sets(len(mPool), 3, 3, -1), v3)
-		add(&c29Tier{Name: "agg-3m-v5", NSlots: n, Slot: f, Exprs: aggExprs, ASel: "m", Block: 64,
-			Desc: "every vector of 3 samples over the 9 series of metric m x values {1,2,NaN,+Inf,-Inf}"})
-		// A3: three samples with mixed metric names.
-		n, f = c29VecSlots(aggPool, c29Sets(len(aggPool), 3, 3, len(mPool)), []float64{1, 2, math.NaN()})
-		add(&c29Tier{Name: "agg-3mixed-v3", NSlots: n, Slot: f, Exprs: aggExprs, ASel: aggSel, Block: 64,
-			Desc: "every vector of 3 samples over the 12 series containing at least one series of metric n x values {1,2,NaN}"})
+		vecTier("agg-3m9-v3", "every vector of 3 samples over the 9 series of metric m x values {1,2,NaN}",
+			"m", mPool, c29Sets(9, 3, 3, -1), []float64{1, 2, nan}, aggExprs)
+		vecTier("agg-3m6-v6", "every vector of 3 samples over 6 series of metric m ({a,b} in {absent,1} plus a=2, a=1/b=2) x all 6 values",
+			"m", mPool[:6], c29Sets(6, 3, 3, -1), c29Vals, aggExprs)
+		mixPool := append(append([]c29Series{}, mPool[:4]...), nExtra...)
+		vecTier("agg-3mixed-v3", "every vector of 3 samples over m{}, m{a=1}, m{b=1}, m{a=1,b=1}, n{}, n{a=1}, n{a=1,b=1} with at least one n series x values {1,2,NaN}",
+			aggSel, mixPool, c29Sets(len(mixPool), 3, 3, 4), []float64{1, 2, nan}, aggExprs)
 	} else {
-		n, f = c29VecSlots(mPool[:6], c29Sets(6, 3, 3, -1), []float64{1, 2, math.NaN()})
-		add(&c29Tier{Name: "agg-3m6-v3", NSlots: n, Slot: f, Exprs: aggExprs, ASel: "m", Block: 64,
-			Desc: "every vector of 3 samples over 6 series of metric m x values {1,2,NaN}"})
+		vecTier("agg-3m6-v3", "every vector of 3 samples over 6 series of metric m x values {1,2,NaN}",
+			"m", mPool[:6], c29Sets(6, 3, 3, -1), []float64{1, 2, nan}, aggExprs)
 	}
+	_ = inf
 
 	lPool, rPool := c29Combos("l"), c29Combos("r")
 	allForms := c29OpForms(append(append(append([]string{}, c29ArithOps...), c29CmpOps...), c29SetOps...), true)
 	repForms := []c29OpForm{{"+", false}, {"==", false}, {"<", true}, {">=", false}, {"and", false}, {"or", false}, {"unless", false}}
+	const repDesc = "7 representative operator forms (+, ==, < bool, >=, and, or, unless)"
 
 	// B1: operator x value: single matching pair l{a="1"} / r{a="1"} with all 36 value pairs, and the
 	// scalar forms over all values.
@@ -454,41 +467,39 @@ func c29Tiers(thorough bool) []*c29Tier {
 	}
 
 	sets2 := c29Sets(9, 0, 2, -1)
+	sets1 := c29Sets(9, 0, 1, -1)
 	sets3 := c29Sets(9, 3, 3, -1)
 	stdAll := c29VVExprs(allForms, c29Clauses(false, false), c29Groups(false), c29Fills(4))
 	stdRep := c29VVExprs(repForms, c29Clauses(false, false), c29Groups(false), c29Fills(4))
 	if thorough {
-		// B2: every operator x matching clause x group modifier x fill on all pairs of <=2-series vectors.
-		n, f = c29PairSlots(lPool, rPool, c29Pairs(sets2, sets2, nil), 1)
-		add(&c29Tier{Name: "match-2x2-allops", NSlots: n, Slot: f, Exprs: stdAll, LSel: "l", RSel: "r", Block: 8,
-			Desc: "every operator form (22) x 8 matching clauses x 7 group modifiers x 4 fill modifiers on every pair of vectors of 0..2 series (9 label sets per side)"})
-		// B3: representative operators on larger vectors.
-		pairs := append(c29Pairs(sets3, sets2, nil), c29Pairs(sets2, sets3, nil)...)
-		n, f = c29PairSlots(lPool, rPool, pairs, 1)
-		add(&c29Tier{Name: "match-3x2-rep", NSlots: n, Slot: f, Exprs: stdRep, LSel: "l", RSel: "r", Block: 32,
-			Desc: "7 representative operator forms (+, ==, < bool, >=, and, or, unless) x 8 clauses x 7 group modifiers x 4 fills on every pair of a 3-series vector with a 0..2-series vector"})
+		pairTier("match-2x1-allops", "every operator form (22) x 8 matching clauses x 7 group modifiers x 4 fill modifiers on every pair of vectors of 0..2 series (9 label sets per side) in which one side has at most 1 series",
+			lPool, rPool, "l", "r", c29Pairs(sets2, sets2, small(1)), 0, stdAll, 8)
+		pairTier("match-2x2-rep", repDesc+" x 8 clauses x 7 group modifiers x 4 fills on every pair of vectors of 0..2 series",
+			lPool, rPool, "l", "r", c29Pairs(sets2, sets2, nil), 0, stdRep, 32)
+		s6two := c29Sets(6, 2, 2, -1)
+		s6three := c29Sets(6, 3, 3, -1)
+		p3 := append(c29Pairs(sets3, sets1, nil), c29Pairs(sets1, sets3, nil)...)
+		p3 = append(p3, c29Pairs(s6three, s6two, nil)...)
+		p3 = append(p3, c29Pairs(s6two, s6three, nil)...)
+		pairTier("match-3xN-rep", repDesc+" x 8 clauses x 7 group modifiers x 4 fills on every pair of a 3-series vector (9 label sets) with a 0..1-series vector, and of a 3-series with a 2-series vector (6 label sets)",
+			lPool, rPool, "l", "r", p3, 0, stdRep, 32)
 		minExprs := c29VVExprs([]c29OpForm{{"+", false}, {"==", false}, {"or", false}}, c29Clauses(false, false), []c29Group{{0, nil, false}, {1, nil, false}, {2, []string{"b"}, false}}, c29Fills(2))
-		n, f = c29PairSlots(lPool, rPool, c29Pairs(sets3, sets3, nil), 1)
-		add(&c29Tier{Name: "match-3x3-min", NSlots: n, Slot: f, Exprs: minExprs, LSel: "l", RSel: "r", Block: 128,
-			Desc: "+, == and or x 8 clauses x {none, group_left, group_right(b)} x {none, fill(0)} on every pair of 3-series vectors"})
-		n, f = c29PairSlots(lPool, rPool, c29Pairs(sets2, sets2, nil), 2)
-		add(&c29Tier{Name: "match-2x2-rep-pattern2", NSlots: n / 2, Slot: func(i int) []ag_Sample { return f(2*i + 1) }, Exprs: stdRep, LSel: "l", RSel: "r", Block: 32,
-			Desc: "the 7 representative forms x std modifier product on every pair of 0..2-series vectors with the second value pattern (NaN/Inf operands)"})
-		// B5: unusual spellings: ignoring(), unsorted on(b,a), on(absent label), group_left(), two include labels,
-		// include of an absent label, all six fill spellings.
+		pairTier("match-3x3-min", "+, == and or x 8 clauses x {none, group_left, group_right(b)} x {none, fill(0)} on every pair of 3-series vectors",
+			lPool, rPool, "l", "r", c29Pairs(sets3, sets3, nil), 0, minExprs, 128)
+		pairTier("match-2x1-rep-pattern2", repDesc+" x std modifier product on every pair of 0..2-series vectors with a 0..1-series side, second value pattern (NaN/Inf operands)",
+			lPool, rPool, "l", "r", c29Pairs(sets2, sets2, small(1)), 1, stdRep, 32)
+		// unusual spellings
 		xExprs := c29VVExprs(repForms, c29Clauses(false, true), c29Groups(true), c29Fills(6))
-		n, f = c29PairSlots(lPool, rPool, c29Pairs(sets2, sets2, func(l, r []int) bool { return len(l) <= 1 || len(r) <= 1 }), 1)
-		add(&c29Tier{Name: "match-extras", NSlots: n, Slot: f, Exprs: xExprs, LSel: "l", RSel: "r", Block: 16,
-			Desc: "the 7 representative forms x 11 clauses (adds ignoring(), on(b,a), on(c)) x 10 group modifiers (adds group_left(), group_left(a,b), group_right(c)) x 6 fills (adds two-sided and NaN/Inf fills) on pairs with a 0..1-series side"})
+		s6 := c29Sets(6, 0, 2, -1)
+		pairTier("match-extras", repDesc+" x 11 clauses (adds ignoring(), on(b,a), on(c)) x 10 group modifiers (adds group_left(), group_left(a,b), group_right(c)) x 6 fills (adds two-sided and NaN/Inf fills) on pairs of 0..2-series vectors (6 label sets) with a 0..1-series side",
+			lPool, rPool, "l", "r", c29Pairs(s6, s6, small(1)), 0, xExprs, 16)
 	} else {
 		qExprs := c29VVExprs(allForms, c29Clauses(false, false), c29Groups(false)[:5], c29Fills(3))
-		n, f = c29PairSlots(lPool, rPool, c29Pairs(sets2, sets2, func(l, r []int) bool { return len(l) <= 1 && len(r) <= 1 }), 1)
-		add(&c29Tier{Name: "match-1x1-allops", NSlots: n, Slot: f, Exprs: qExprs, LSel: "l", RSel: "r", Block: 8,
-			Desc: "every operator form (22) x 8 matching clauses x 5 group modifiers x 3 fill modifiers on every pair of vectors of 0..1 series"})
-		s6 := c29Sets(6, 0, 2, -1)
-		n, f = c29PairSlots(lPool, rPool, c29Pairs(s6, s6, func(l, r []int) bool { return len(l) == 2 || len(r) == 2 }), 1)
-		add(&c29Tier{Name: "match-2x2s-rep", NSlots: n, Slot: f, Exprs: stdRep, LSel: "l", RSel: "r", Block: 32,
-			Desc: "7 representative operator forms (+, ==, < bool, >=, and, or, unless) x 8 clauses x 7 group modifiers x 4 fills on every pair of 0..2-series vectors (6 label sets per side) with a 2-series side"})
+		pairTier("match-1x1-allops", "every operator form (22) x 8 matching clauses x 5 group modifiers x 3 fill modifiers on every pair of vectors of 0..1 series",
+			lPool, rPool, "l", "r", c29Pairs(sets1, sets1, nil), 0, qExprs, 8)
+		s5 := c29Sets(5, 0, 2, -1)
+		pairTier("match-2x2s-rep", repDesc+" x 8 clauses x 7 group modifiers x 4 fills on every pair of 0..2-series vectors (5 label sets per side) with a 2-series side",
+			lPool, rPool, "l", "r", c29Pairs(s5, s5, func(l, r []int) bool { return len(l) == 2 || len(r) == 2 }), 0, stdRep, 32)
 	}
 	// B4: metric-name handling: operands that mix two metric names (duplicate label sets once the
 	// name is dropped), on(__name__) / ignoring(__name__).
@@ -505,21 +516,24 @@ func c29Tiers(thorough bool) []*c29Tier {
 			}
 			return false
 		}
-		n, f = c29PairSlots(lp, rp, c29Pairs(ls, ls, func(l, r []int) bool { return touch(l) || touch(r) }), 1)
 		forms := []c29OpForm{{"+", false}, {"==", false}, {"!=", true}, {">=", false}, {"and", false}, {"or", false}, {"unless", false}}
-		exprs := c29VVExprs(forms, c29Clauses(true, false), c29Groups(false), c29Fills(c29If(thorough, 2, 3)))
+		groups := c29Groups(false)
+		if !thorough {
+			groups = groups[:5]
+		}
+		exprs := c29VVExprs(forms, c29Clauses(true, false), groups, c29Fills(c29If(thorough, 2, 3)))
 		for _, e := range c29ScalarExprs() {
 			if e.Kind != "ss" && (e.SLText == "1" || e.SRText == "1") && (e.Op == "*" || e.Op == ">=" || e.Op == "==") {
 				exprs = append(exprs, e)
 			}
 		}
-		add(&c29Tier{Name: fmt.Sprintf("names%d", np+3), NSlots: n, Slot: f, Exprs: exprs, LSel: `{__name__=~"l|k"}`, RSel: `{__name__=~"r|q"}`, Block: 32,
-			Desc: fmt.Sprintf("operands mixing metric names (l,k | r,q; %d series per side, 0..2 per operand, at least one second-name series) x 7 operator forms x 11 matching clauses incl. on(__name__), on(__name__,a), ignoring(__name__) x 7 group modifiers x fills, plus vector/scalar forms", np+3)})
+		pairTier(fmt.Sprintf("names%d", np+3), fmt.Sprintf("operands mixing metric names (l,k | r,q; %d series per side, 0..2 per operand, at least one second-name series) x 7 operator forms x 11 matching clauses incl. on(__name__), on(__name__,a), ignoring(__name__) x %d group modifiers x fills, plus vector/scalar forms", np+3, len(groups)),
+			lp, rp, `{__name__=~"l|k"}`, `{__name__=~"r|q"}`, c29Pairs(ls, ls, func(l, r []int) bool { return touch(l) || touch(r) }), 0, exprs, 32)
 	}
 	if thorough {
 		// the delayed-name-removal engine must produce the same documented results
 		for _, t := range append([]*c29Tier{}, tiers...) {
-			if t.Name == "agg-le2" || t.Name == "op-values" || t.Name == "names7" {
+			if t.Name == "agg-3mixed-v3" || t.Name == "op-values" || t.Name == "names7" {
 				c := *t
 				c.Name += "/delayed-name-removal"
 				c.Delayed = true
